@@ -97,6 +97,8 @@ func Validate(f *File, ex Expect) []Problem {
 	}
 	schemas := map[uint16]bool{}
 	channels := map[uint16]bool{}
+	dataSchemas := map[uint16]*Schema{}   // as defined in the data section (last definition)
+	dataChannels := map[uint16]*Channel{} // as defined in the data section (last definition)
 	seeInner := func(r *Rec, where string) {
 		switch r.Op {
 		case OpSchema:
@@ -104,11 +106,13 @@ func Validate(f *File, ex Expect) []Problem {
 				v.p5("schema-id-zero", "schema with id 0 %s", where)
 			}
 			schemas[r.Schema.ID] = true
+			dataSchemas[r.Schema.ID] = r.Schema
 		case OpChannel:
 			if r.Channel.SchemaID != 0 && !schemas[r.Channel.SchemaID] {
 				v.p5("channel-before-schema", "channel %d %s refers to schema %d not seen before", r.Channel.ID, where, r.Channel.SchemaID)
 			}
 			channels[r.Channel.ID] = true
+			dataChannels[r.Channel.ID] = r.Channel
 		case OpMessage:
 			if !channels[r.Message.ChannelID] {
 				v.p5("message-before-channel", "message %s on channel %d not seen before", where, r.Message.ChannelID)
@@ -510,6 +514,32 @@ func Validate(f *File, ex Expect) []Problem {
 		}
 		if n != nMeta {
 			v.p5("metadata-index-coverage", "%d metadata records, %d valid metadata indexes", nMeta, n)
+		}
+	}
+	// the schema and channel records repeated in the summary are copies: field for field what the data section defines
+	for _, r := range sumSchemas {
+		if r.Schema == nil {
+			continue
+		}
+		if d, ok := dataSchemas[r.Schema.ID]; ok && !r.Schema.Equal(d) {
+			v.p5("summary-copy-differs", "schema %d repeated in the summary at %d differs from its definition in the data section", r.Schema.ID, r.Off)
+		}
+	}
+	for _, r := range sumChannels {
+		if r.Channel == nil {
+			continue
+		}
+		if d, ok := dataChannels[r.Channel.ID]; ok {
+			c := r.Channel
+			same := c.SchemaID == d.SchemaID && c.Topic == d.Topic && c.MessageEncoding == d.MessageEncoding && len(KVMap(c.Metadata)) == len(KVMap(d.Metadata))
+			for k, val := range KVMap(c.Metadata) {
+				if dv, ok := KVMap(d.Metadata)[k]; !ok || dv != val {
+					same = false
+				}
+			}
+			if !same {
+				v.p5("summary-copy-differs", "channel %d repeated in the summary at %d differs from its definition in the data section", c.ID, r.Off)
+			}
 		}
 	}
 	triCheck(v, ex.Statistics, nStats > 0, true, "statistics")
